@@ -119,7 +119,10 @@ func c06Exec(c *core.Ctx, in cryptoCase) {
 	want := refEnc(in.Alg, key, in.Count, in.Bearer, in.Dir, payload, in.Bits)
 	var got []byte
 	var err error
-	buf := append([]byte{}, payload...)
+	// the payload is a window into a larger buffer (spare capacity behind it, canaries around it), as a caller that
+	// ciphers part of a received or assembled message hands it over
+	guardReset()
+	buf := guardIn(payload)
 	pi := core.Try(func() {
 		if in.Via == "wrapper" {
 			err = security.NASEncrypt(uint8(in.Alg), key, in.Count, in.Bearer, in.Dir, buf)
@@ -154,6 +157,13 @@ func c06Exec(c *core.Ctx, in cryptoCase) {
 	}
 	if in.Via == "direct" && !bytes.Equal(buf, payload) {
 		c.Fail(name+"|mutates-input", "the per-algorithm function modified its input buffer")
+		return
+	}
+	if in.Via == "wrapper" {
+		copy(buf, payload) // in-place API: restore, then only the surroundings are compared
+	}
+	if w := guardCheck(); w != "" {
+		c.Fail(name+"|writes-outside-payload", w)
 	}
 }
 
@@ -167,7 +177,8 @@ func c07Exec(c *core.Ctx, in cryptoCase) {
 	want := refMac(in.Alg, key, in.Count, in.Bearer, in.Dir, msg, in.Bits)
 	var got []byte
 	var err error
-	buf := append([]byte{}, msg...)
+	guardReset()
+	buf := guardIn(msg)
 	pi := core.Try(func() {
 		if in.Via == "wrapper" {
 			got, err = security.NASMacCalculate(uint8(in.Alg), key, in.Count, in.Bearer, in.Dir, buf)
@@ -201,6 +212,10 @@ func c07Exec(c *core.Ctx, in cryptoCase) {
 	}
 	if !bytes.Equal(buf, msg) {
 		c.Fail(name+"|mutates-message", "the message was modified")
+		return
+	}
+	if w := guardCheck(); w != "" {
+		c.Fail(name+"|writes-outside-message", w)
 	}
 }
 
